@@ -87,6 +87,31 @@ def c19_initialisers(ctx, prog):
                 ctx.ob("C19.F1", "%s: %s.%s" % (F.name, rec or "<nested struct>", fld), "the value initialising this C field comes from "
                        "the same-named C++ member or parameter (positional initialisers follow the C field order)", ok,
                        {"c_field": fld, "initialised_from": expr_str(sub)[:60], "source_name": src, "line": sub["l"][0]}, nontrivial=True)
+    # the same mapping written as field-by-field assignments to a C aggregate variable: result.X = <expr>
+    for F in prog.funcs_all:
+        if not F.file.endswith("reproc.cpp"):
+            continue
+        cvars = {x["name"] for x in F.walk() if x["k"] == "VarDecl" and any(a in (x.get("t") or "") for a in C_AGGREGATES if a)}
+        for node in F.walk():
+            if node["k"] == "BinaryOperator" and node["op"] == "=":
+                lp = chain(node["c"][0])
+                if lp and lp[0] in cvars and lp[1]:
+                    r0 = cstrip(node["c"][1])
+                    if r0["k"] in ("InitListExpr",):
+                        continue
+                    src = source_name(node["c"][1])
+                    fld = lp[1][-1]
+                    ok = src == fld
+                    if not ok and r0["k"] == "CXXMemberCallExpr":
+                        callee = cstrip(r0["c"][0])
+                        if callee["k"] == "MemberExpr" and callee["member"] == fld and len(lp[1]) >= 2 and src == lp[1][-2]:
+                            ok = True
+                    if fld == "fork" and src in ("fork",):
+                        ok = True
+                    n += 1
+                    ctx.ob("C19.F1", "%s: %s.%s" % (F.name, lp[0], ".".join(lp[1])), "the value assigned to this C field comes from the "
+                           "same-named C++ member or parameter", ok, {"c_field": ".".join(lp[1]), "assigned_from": expr_str(node["c"][1])[:60],
+                                                                     "source_name": src, "line": node["l"][0]}, nontrivial=True)
     ctx.floor("C19.F1", 25)
 
 
@@ -342,8 +367,17 @@ def c19_containers(ctx, prog):
             idx_stores = [n for n in F.walk() if n["k"] == "BinaryOperator" and n["op"] == "=" and cstrip(n["c"][0])["k"] == "ArraySubscriptExpr"]
             inc = [n for n in idx_stores if cstrip(cstrip(n["c"][0])["c"][1])["k"] == "UnaryOperator" and cstrip(cstrip(n["c"][0])["c"][1])["op"] == "++"]
             term = [n for n in idx_stores if cstrip(n["c"][1])["k"] == "CXXNullPtrLiteralExpr" or cstrip(n["c"][1]).get("null")]
-            ctx.ob("C19.F6", q + ": order", "entries are stored at current++ in iteration order and the array is terminated with nullptr",
-                   len(inc) == 1 and len(term) == 1 and bool([a for a in F.ancestors(inc[0]) if a["k"] in ("CXXForRangeStmt",)]), None)
+            rng = [a for a in F.ancestors(inc[0]) if a["k"] in ("CXXForRangeStmt",)] if inc else []
+            skipping = []
+            if rng:
+                body_nodes = list(walk_nodes(rng[0]))
+                skipping = [x["k"] for x in body_nodes if x["k"] in ("ContinueStmt", "BreakStmt", "GotoStmt", "ReturnStmt")]
+                # the store itself must not sit under a condition inside the loop
+                skipping += ["conditional store" for a in F.ancestors(inc[0]) if a["k"] in ("IfStmt", "ConditionalOperator", "SwitchStmt")
+                             and a["id"] in {x["id"] for x in body_nodes}]
+            ctx.ob("C19.F6", q + ": order", "every entry of the container is stored, at current++ in iteration order (no entry is skipped), "
+                   "and the array is terminated with nullptr", len(inc) == 1 and len(term) == 1 and bool(rng) and not skipping,
+                   {"skips": skipping})
     # detail::array destructor frees what from() allocated; moves null the source
     D = [F for F in prog.funcs_all if F.qname == "reproc::detail::array::~array"]
     if D:
